@@ -318,18 +318,31 @@ def _is_angmom_table(D, node):
     return isinstance(val, dict) and set(val) >= {"s", "p", "d"}
 
 
+def module_const_env(module):
+    """module-level names that fold to constants, in definition order (a table may be built from another constant)"""
+    env = {}
+    for st in module.tree.body:
+        if isinstance(st, ast.Assign) and len(st.targets) == 1 and isinstance(st.targets[0], ast.Name):
+            try:
+                env[st.targets[0].id] = const_eval(st.value, env)
+            except (ValueError, TypeError, KeyError, IndexError):
+                pass
+    return env
+
+
 def rule_p4(f, R):
     """The angular-momentum table maps s p d f g h i k to 0..7 and is consulted through .lower()."""
     _CONST_SCOPE[:] = [(f.node, f.module)]
     fn = f.node
     D = Defs(fn)
     found = 0
+    menv = module_const_env(f.module)
     for name in sorted(D.defs):
         v = D.single_assign(name)
         if v is None:
             continue
         try:
-            val = const_eval(v)
+            val = const_eval(v, menv)
         except ValueError:
             # a table built from non-literal pieces: only complain if it is used as the letter table
             continue
@@ -780,6 +793,38 @@ def rule_make_contractions(repo, f, R):
         icenter_var = ast.unparse(outer.target.elts[0])
         atom_var, coord_var = (ast.unparse(x) for x in outer.target.elts[1].elts)
         ok6 = len(it.args) == 1 and not it.keywords
+    elif isinstance(it, ast.Call) and dotted(it.func) == "zip" and [ast.unparse(a) for a in it.args] == [p_atoms, p_coords] \
+            and isinstance(outer.target, ast.Tuple) and len(outer.target.elts) == 2 and all(isinstance(x, ast.Name) for x in outer.target.elts):
+        # no enumerate: the atom index must come from a counter that advances once per atom
+        atom_var, coord_var = (x.id for x in outer.target.elts)
+        ic = amap.get("icenter")
+        src = ic
+        if isinstance(ic, ast.Name):
+            inside = [st for st in ast.walk(outer) if isinstance(st, ast.Assign) and len(st.targets) == 1 and isinstance(st.targets[0], ast.Name)
+                      and st.targets[0].id == ic.id]
+            if len(inside) == 1:
+                src = inside[0].value
+        if isinstance(src, ast.Call) and isinstance(src.func, ast.Attribute) and src.func.attr == "index" and len(src.args) == 1 \
+                and ast.unparse(src.args[0]) == atom_var:
+            R.fail("P6", f.site, "icenter = " + ast.unparse(src), f"the atom index is looked up with `{ast.unparse(src)}`: `index` returns the FIRST atom with "
+                   "that symbol, so every shell of a repeated element gets the index of its first occurrence", where=f.where(src),
+                   expected=f"enumerate(zip({p_atoms}, {p_coords}))", found=ast.unparse(src))
+            icenter_var = ast.unparse(ic) if ic is not None else None
+            ok6 = True
+        elif isinstance(ic, ast.Name):
+            # counter: `k = 0` before the loop and exactly one `k += 1` at the top level of the outer body after the shells of the atom
+            before = [st for st in fn.body if isinstance(st, ast.Assign) and len(st.targets) == 1 and isinstance(st.targets[0], ast.Name)
+                      and st.targets[0].id == ic.id and isinstance(st.value, ast.Constant) and st.value.value == 0 and st.lineno < outer.lineno]
+            incs = [st for st in outer.body if isinstance(st, ast.AugAssign) and isinstance(st.target, ast.Name) and st.target.id == ic.id
+                    and isinstance(st.op, ast.Add) and isinstance(st.value, ast.Constant) and st.value.value == 1]
+            others = [st for st in ast.walk(outer) if isinstance(st, (ast.Assign, ast.AugAssign)) and ic.id in target_names(st) and st not in incs]
+            if len(before) == 1 and len(incs) == 1 and not others and outer.body.index(incs[0]) > max(outer.body.index(x) for x in outer.body if inner in ast.walk(x)):
+                icenter_var = ic.id
+                ok6 = True
+            else:
+                raise AnalysisError("P6", "the atom index is neither enumerate(...) nor a counter advanced once per atom", f.where(outer))
+        else:
+            raise AnalysisError("P6", "unrecognised outer loop idiom", f.where(outer))
     elif isinstance(it, ast.Call) and dotted(it.func) == "zip":
         raise AnalysisError("P6", "unrecognised outer loop idiom", f.where(outer))
     R.check(ok6, "P6", f.site, "for " + ast.unparse(outer.target) + " in " + ast.unparse(it),
